@@ -2,7 +2,7 @@
     the length of a file against, and the length C06 promises: header + 12 bytes per point) equals the
     translation of the current [Header.ExpectedFileSize] (its loop over the archive list rendered as a Fixpoint),
     for every header whose fields are values of their Go types and fewer than 2^20 archives. *)
-From WT Require Import Base.Wrap Base.ListX Model.Time Model.Ring Model.Update Model.Codec Gen.GoKernel Tie.TieBase Tie.tie_Header_Size Tie.tie_validate.
+From WT Require Import Base.Wrap Base.ListX Model.Time Model.Ring Model.Update Model.Codec Gen.GoKernel Tie.TieBase Tie.tie_Header_Size.
 
 Lemma size_loop_tie : forall l i len sz,
   Forall typed l -> 0 <= i -> i + Z.of_nat (length l) < 2^31 ->
